@@ -33,7 +33,67 @@ def strip_generics(p):
     return ''.join(out)
 
 
+_REFNAMES = None
+
+
+def _refnames():
+    """parameter names of the pinned tree, per function item (rules/refnames.json, written by
+    bin/pin-params).  A parameter is identified by its position; it is *spelled* with the name it had
+    in the pinned tree, so that renaming a parameter changes no table, key or symbol."""
+    global _REFNAMES
+    if _REFNAMES is None:
+        _REFNAMES = {}
+        f = os.path.join(os.path.dirname(os.path.abspath(__file__)), 'refnames.json')
+        if os.path.exists(f) and not os.environ.get('VERIF_NO_REFNAMES'):
+            with open(f) as fh:
+                _REFNAMES = json.load(fh)
+    return _REFNAMES
+
+
+def refname_key(crate, d):
+    return '%s::%s|%s' % (crate, d['path'], d.get('impl_trait_ref') or d.get('impl_self') or '')
+
+
 class Fn:
+    def _apply_refnames(self):
+        if self.kind == 'Closure' or self.hir is None:
+            return
+        want = _refnames().get(refname_key(self.crate, self.d))
+        if not want:
+            return
+        binds = [b for p in self.params for b in _pat_binds(p)]
+        if len(binds) != len(want) or [b['name'] for b in binds] == want:
+            return
+        new = {b['local']: w for b, w in zip(binds, want) if b['name'] != w}
+        taken = {b['name'] for b in binds} | set(want)
+        # a local of the body that already carries a reference name would be confused with the
+        # parameter by name-reading rules: give it a fresh spelling
+        clash = {}
+        for x in walk(self.hir):
+            for b in (_pat_binds(x['pat']) if isinstance(x.get('pat'), dict) else []) + \
+                    [b for q in x.get('params', []) if isinstance(q, dict) for b in _pat_binds(q)]:
+                if b['local'] not in new and b['name'] in set(new.values()):
+                    clash[b['local']] = b['name'] + '_'
+        new.update(clash)
+        for b in binds:
+            if b['local'] in new:
+                b['name'] = new[b['local']]
+        for x in walk(self.hir):
+            if x.get('k') == 'Path' and x.get('res') == 'local' and x.get('local') in new:
+                x['name'] = new[x['local']]
+            pats = ([x['pat']] if isinstance(x.get('pat'), dict) else []) + \
+                [q for q in x.get('params', []) if isinstance(q, dict)]
+            for s_ in x.get('stmts', []) if isinstance(x.get('stmts'), list) else []:
+                if isinstance(s_, dict) and isinstance(s_.get('pat'), dict):
+                    pats.append(s_['pat'])
+            for a_ in x.get('arms', []) if isinstance(x.get('arms'), list) else []:
+                if isinstance(a_, dict) and isinstance(a_.get('pat'), dict):
+                    pats.append(a_['pat'])
+            for q in pats:
+                for b in _pat_binds(q):
+                    if b.get('local') in new:
+                        b['name'] = new[b['local']]
+
     def __init__(self, crate, d):
         self.crate = crate
         self.d = d
@@ -53,6 +113,7 @@ class Fn:
         self.impl_trait = d.get('impl_trait')
         self.unsafe = d.get('unsafe', False)
         self.vis = d.get('vis')
+        self._apply_refnames()
 
     @property
     def file(self):
